@@ -8,8 +8,8 @@ C14Names == {"header", "babepre", "vote", "signedvote", "body", "digestitem", "a
 C33Names == {"announce", "handshake", "txmsg", "body", "header"}
 (* extension: GRANDPA gossip, commits / justifications, consensus digests, protobuf block request / response *)
 C14WireNames == {"gvote", "gcommit", "gneighbour", "gcatchupreq", "gcatchupresp", "gcommitj", "gjust", "primjust", "primjust64",
-                 "primsignedmsg", "warpproof", "babecons", "grandpacons", "blockrequest", "blockresponse"}
-C33WireNames == {"gvote", "gcommit", "gneighbour", "gcatchupreq", "gcatchupresp", "blockrequest", "blockresponse"}
+                 "primsignedmsg", "warpproof", "babecons", "grandpacons", "blockrequest", "blockresponse", "bodycount"}
+C33WireNames == {"gvote", "gcommit", "gneighbour", "gcatchupreq", "gcatchupresp", "blockrequest", "blockresponse", "bodycount"}
 C14AllNames == C14Names \cup C14WireNames
 C33AllNames == C33Names \cup C33WireNames
 =============================================================================
